@@ -12,6 +12,7 @@ import (
 	"unicode/utf8"
 
 	"github.com/buildkite/go-pipeline/ordered"
+	"github.com/gowebpki/jcs"
 )
 
 // Enc encodes a Go value tree. *ordered.MapSA / *ordered.MapSS -> omap,
@@ -29,14 +30,18 @@ func encStr(b *strings.Builder, tag byte, s string) {
 	b.WriteString(s)
 }
 
-// FloatLit is the opaque float literal: Sprint | JSON | %e.
+// FloatLit is the opaque float literal: Sprint | JSON | %e | ES6 (RFC 8785 number form).
 func FloatLit(f float64) string {
 	j, err := json.Marshal(f)
 	js := string(j)
 	if err != nil {
 		js = "ERR"
 	}
-	return fmt.Sprint(f) + "|" + js + "|" + fmt.Sprintf("%e", f)
+	es6, err := jcs.NumberToJSON(f)
+	if err != nil {
+		es6 = "ERR"
+	}
+	return fmt.Sprint(f) + "|" + js + "|" + fmt.Sprintf("%e", f) + "|" + es6
 }
 
 func enc(b *strings.Builder, v any) {
